@@ -140,8 +140,9 @@ def run(ck):
     # a construct of the generator that js.Parse never accepts would make its scenarios vacuous
     acc = s.get("atoms_accepted") or {}
     fams = s.get("families_accepted") or {}
-    used_ctx = {k.split(":")[1] for k in fams}
-    used_frames = {fr for k in fams for fr in k.split(":", 2)[2].split(">") if fr}
+    parts = [(k.split(":", 2) + ["", ""])[:3] for k in fams]
+    used_ctx = {p[1] for p in parts}
+    used_frames = {fr for p in parts for fr in p[2].split(" ") if fr}
     never = [n for n in vocab_names["inner"] if "inner:" + n not in acc] + [n for n in vocab_names["lit"] if "lit:" + n not in acc] + \
             [n for n in vocab_names["ctx"] if n not in used_ctx] + [n for n in vocab_names["frame"] if n not in used_frames]
     if never:
